@@ -41,12 +41,40 @@ structure ExprSite where
 * `kind = "call"`: a call of `Keys`, `Iterate` or `Range` on a
   `typeutil.Map` / `sync.Map` (`expr` is the call);
 * `kind = "unknown"`: the operand's type could not be resolved (`expr`
-  starts with `unknown: `). -/
+  starts with `unknown: `).
+
+`pattern` says why the order of the iteration cannot be observed afterwards.
+It is computed conservatively from the loop body and its context
+(`harness/cmd/extract/maporder.go`, rules at `classifyRange`), so that moving
+a loop to another function does not change it:
+
+* `"set"`: every statement of the body is, possibly under side-effect-free
+  `if`s and next to `continue`s, a store into a map (`m[k] = v`), a
+  `delete(m, k)`, or a commutative accumulation into an integer variable;
+  nothing the body reads is written by it; writes to one map are keyed by the
+  loop's own key, or all store the same constant, or all delete;
+* `"count"`: as `"set"`, with integer accumulations (`n++`, `n += e`) only;
+* `"append-then-sort:<s>"`: the body only appends to the one local slice `s`
+  (under such `if`s / `continue`s) and the first statement after the loop
+  that mentions `s` sorts it; `detail` is `""` for the natural order of the
+  elements (`sort.Strings`, `sort.Ints`, `slices.Sort`), else the source text
+  of the comparison (`sort.Slice`, `sort.SliceStable`, `slices.SortFunc`,
+  `sort.Sort(conv(s))`) with the slice spelled `_s`: such a sort fixes the
+  order only if the comparison tells all elements apart, which is reviewed
+  per comparison;
+* `"keys-call"` (`kind = "call"`): `detail` is `"range:<pattern>"`, with
+  `";less=<comparison>"` appended for a custom sort, when the call is directly
+  the operand of a `range` (that loop is then classified as above), else
+  `"unknown"`;
+* `"unknown:<statement>"`: none of the above; the text is the first statement
+  that does not fit and `detail` says why. -/
 structure MapRange where
   file : String
   func : String
   expr : String
   kind : String
+  pattern : String
+  detail : String
   deriving DecidableEq, Repr
 
 /-- A string the generator writes only in source-map mode, or any string
